@@ -97,7 +97,9 @@ def diagnose (I : InstIn) (σ : Ty.TMap) : List Ty → List Json
         let proj := match a with
           | .wild v bd => exemptProjection I σ p a || (bd.isSome && projAllowed I p ps v)
           | _ => true
-        let fails := (if noPrim then [] else ["primitive-or-bare-constructor"]) ++ (if bnd then [] else ["outside-bound"]) ++
+        let fails := (if noPrim then [] else ["primitive-or-bare-constructor"]) ++ (if bnd then [] else
+            [if (match Ty.boundOf p with | some b => b.isTVar && overridable I b | none => false)
+             then "outside-bound:bound-variable-overwritten-by-a-request" else "outside-bound"]) ++
           (if kept then [] else ["requested-assignment-not-kept"]) ++ (if proj then [] else ["projection-not-permitted"])
         if fails.isEmpty then [] else
           [Json.mkObj [("param", Json.str (Ty.tparamStr p)), ("arg", Json.str (Ty.getName a)),
